@@ -110,21 +110,357 @@ Proof.
   destr_step H; unfold cons_inv, handled, ret, set_thread, enqueue, with_wr; cbn [chan done wr batch threads enq flushed];
     try (split; [assumption | assumption]).
   all: try rewrite handled_snoc.
-  all: try (split; [ | intros [E|[E|E]]; try discriminate E; auto ]).
-  all: try solve [ rewrite <- Hc; rewrite ?app_assoc; reflexivity ].
-  all: try solve [ rewrite <- Hc; repeat rewrite <- app_assoc; simpl;
-                   repeat match goal with E : chan s = _ |- _ => rewrite E end;
-                   repeat rewrite <- app_assoc; simpl; reflexivity ].
-  all: try solve [ rewrite <- Hc;
-                   repeat match goal with E : chan s = _ |- _ => rewrite E end;
-                   repeat match goal with E : batch s = _ |- _ => rewrite E end;
-                   rewrite ?Hb by auto; simpl; repeat rewrite <- app_assoc; simpl; reflexivity ].
-  all: try solve [ repeat match goal with E : batch s = _ |- _ => rewrite E in * end;
-                   simpl in *; rewrite ?app_nil_r in *; assumption ].
+  all: repeat match goal with
+              | E : chan _ = _ |- _ => rewrite E in *; clear E
+              | E : batch _ = _ |- _ => rewrite E in *; clear E
+              end.
+  all: split; [ | intros [E|[E|E]]; try discriminate E; auto ].
+  all: try (rewrite <- Hc; repeat rewrite <- app_assoc; simpl; rewrite ?app_nil_r; reflexivity).
+  rewrite Hb in Hc by auto. exact Hc.
 Qed.
 
 Lemma cons_init : cons_inv init.
 Proof. split; [reflexivity | intros _; reflexivity]. Qed.
 
+Lemma cons_reach c s : reach c s -> cons_inv s.
+Proof. apply (reach_invariant c cons_inv cons_init (cons_step c)). Qed.
+
 Lemma conservation c s : reach c s -> handled s ++ batch s ++ chan s = enq s.
-Proof. intros H. apply (reach_invariant c cons_inv cons_init (cons_step c) s H). Qed.
+Proof. intros H. apply (cons_reach c s H). Qed.
+
+(* ------------------------------------------------------------------ 2. message identities, order *)
+Definition next_of (ts : list thread) (t : nat) : nat :=
+  match get ts t with Some th => next th | None => 0 end.
+
+Lemma get_set_same {A} (l : list A) t x y : nth_error l t = Some y -> nth_error (set_nth l t x) t = Some x.
+Proof. revert t. induction l; intros [|t]; simpl; intros; try discriminate; auto. Qed.
+
+Lemma get_set_other {A} (l : list A) t t' x : t <> t' -> nth_error (set_nth l t x) t' = nth_error l t'.
+Proof. revert t t'. induction l; intros [|t] [|t']; simpl; intros; try congruence; auto. Qed.
+
+Lemma next_of_set ts t th x t' :
+  get ts t = Some th -> next th <= next x -> next_of ts t' <= next_of (set_nth ts t x) t'.
+Proof.
+  intros Hg Hle. unfold next_of, get in *. destruct (Nat.eq_dec t t') as [<-|Hne].
+  - rewrite (get_set_same _ _ _ _ Hg), Hg. exact Hle.
+  - rewrite get_set_other by exact Hne. apply Nat.le_refl.
+Qed.
+
+Lemma next_of_app ts x t' : next_of ts t' <= next_of (ts ++ [x]) t'.
+Proof.
+  unfold next_of, get. destruct (nth_error ts t') eqn:E.
+  - rewrite nth_error_app1 by (apply nth_error_Some; congruence). rewrite E. apply Nat.le_refl.
+  - apply Nat.le_0_l.
+Qed.
+
+Definition ids_inv (s : state) : Prop :=
+  NoDup (enq s) /\
+  (forall m, In m (enq s) -> snd m < next_of (threads s) (fst m)) /\
+  (forall t, StronglySorted lt (map snd (of_caller t (enq s)))).
+
+Lemma sorted_snoc l n : StronglySorted lt l -> Forall (fun x => x < n) l -> StronglySorted lt (l ++ [n]).
+Proof.
+  induction 1; simpl; intros Hf.
+  - constructor; constructor.
+  - inversion Hf; subst. constructor; auto. apply Forall_app. split; auto.
+Qed.
+
+Lemma of_caller_snoc t l m : of_caller t (l ++ [m]) = of_caller t l ++ (if Nat.eqb (fst m) t then [m] else []).
+Proof. unfold of_caller. rewrite filter_app. simpl. destruct (fst m =? t); reflexivity. Qed.
+
+(* the effect of one step on [enq] and on the callers' sequence numbers *)
+Lemma step_enq c s l s' : step c s l = Some s' ->
+  (forall t', next_of (threads s) t' <= next_of (threads s') t') /\
+  (enq s' = enq s \/
+   exists t th, get (threads s) t = Some th /\ enq s' = enq s ++ [(t, next th)] /\
+                next_of (threads s') t = S (next th)).
+Proof.
+  intros H. destr_step H; unfold ret, set_thread, enqueue, with_wr; cbn [chan done wr batch threads enq flushed].
+  all: split; [ intros t'; try apply Nat.le_refl; try apply next_of_app;
+                try (eapply next_of_set; [eassumption | simpl; auto]) | ].
+  all: try (left; reflexivity).
+  all: right; eexists; eexists; split; [eassumption | split; [reflexivity|] ];
+       unfold next_of, get in *; erewrite get_set_same by eassumption; reflexivity.
+Qed.
+
+Lemma ids_step c s l s' : ids_inv s -> step c s l = Some s' -> ids_inv s'.
+Proof.
+  intros (Hnd & Hb & Hs) H. destruct (step_enq _ _ _ _ H) as [Hmono [He | (t & th & Hg & He & Hn)]].
+  - unfold ids_inv. rewrite He. split; [exact Hnd|]. split; [|exact Hs].
+    intros m Hm. eapply Nat.lt_le_trans; [apply Hb; exact Hm | apply Hmono].
+  - assert (Hlt : forall m, In m (enq s) -> fst m = t -> snd m < next th).
+    { intros m Hm <-. specialize (Hb m Hm). unfold next_of in Hb. rewrite Hg in Hb. exact Hb. }
+    unfold ids_inv. rewrite He. split; [|split].
+    + eapply Permutation_NoDup; [apply Permutation_cons_append|]. constructor; [|exact Hnd].
+      intros Hm. specialize (Hlt _ Hm eq_refl). simpl in Hlt. lia.
+    + intros m Hm. apply in_app_or in Hm. destruct Hm as [Hm | [<-|[]]].
+      * eapply Nat.lt_le_trans; [apply Hb; exact Hm | apply Hmono].
+      * simpl. rewrite Hn. lia.
+    + intros t'. rewrite of_caller_snoc. simpl. destruct (Nat.eqb_spec t t') as [<-|Hne].
+      * rewrite map_app. simpl. apply sorted_snoc; [apply Hs|].
+        rewrite Forall_forall. intros x Hx. apply in_map_iff in Hx. destruct Hx as (m & <- & Hm).
+        unfold of_caller in Hm. apply filter_In in Hm. destruct Hm as [Hm Ht].
+        apply Nat.eqb_eq in Ht. apply Hlt; auto.
+      * rewrite app_nil_r. apply Hs.
+Qed.
+
+Lemma ids_init : ids_inv init.
+Proof. split; [constructor|]. split; [intros m []|]. intros t. simpl. constructor. Qed.
+
+Lemma ids_reach c s : reach c s -> ids_inv s.
+Proof. apply (reach_invariant c ids_inv ids_init (ids_step c)). Qed.
+
+(* per caller, the accepted messages are exactly its sequence numbers in increasing order *)
+Lemma enq_sorted c s t : reach c s -> StronglySorted lt (map snd (of_caller t (enq s))).
+Proof. intros H. apply (ids_reach c s H). Qed.
+
+Lemma handled_subseq_enq c s : reach c s -> subseq (handled s) (enq s).
+Proof. intros H. rewrite <- (conservation c s H). apply subseq_app_l. Qed.
+
+Lemma delivered_subseq_handled s : subseq (delivered s) (handled s).
+Proof. apply subseq_concat_filter. Qed.
+
+Lemma errored_subseq_handled s : subseq (errored s) (handled s).
+Proof. apply subseq_concat_filter. Qed.
+
+(* FIFO: what the transport delivered, restricted to one caller, is in that caller's send order *)
+Lemma fifo c s t : reach c s -> StronglySorted lt (map snd (of_caller t (delivered s))).
+Proof.
+  intros H. eapply subseq_sorted; [|apply (enq_sorted c s t H)].
+  apply subseq_map. apply subseq_filter_mono.
+  eapply subseq_trans; [apply delivered_subseq_handled | apply (handled_subseq_enq c s H)].
+Qed.
+
+(* the same for the order in which messages leave the coalescer at all (delivered or dead-lettered) *)
+Lemma fifo_handled c s t : reach c s -> StronglySorted lt (map snd (of_caller t (handled s))).
+Proof.
+  intros H. eapply subseq_sorted; [|apply (enq_sorted c s t H)].
+  apply subseq_map. apply subseq_filter_mono. apply (handled_subseq_enq c s H).
+Qed.
+
+Lemma split_perm (fl : list (bool * list msg)) :
+  Permutation (concat (map snd (filter fst fl)) ++ concat (map snd (filter (fun p => negb (fst p)) fl)))
+              (concat (map snd fl)).
+Proof.
+  induction fl as [|[o b] fl IH]; simpl; [constructor|]. destruct o; simpl.
+  - rewrite <- app_assoc. apply Permutation_app_head. exact IH.
+  - etransitivity; [apply Permutation_app_swap_app|]. apply Permutation_app_head. exact IH.
+Qed.
+
+(* at most once: no message is delivered twice, dead-lettered twice, or both *)
+Lemma at_most_once c s : reach c s -> NoDup (delivered s ++ errored s).
+Proof.
+  intros H. eapply Permutation_NoDup; [symmetry; apply split_perm|].
+  eapply subseq_NoDup; [apply (handled_subseq_enq c s H) | apply (ids_reach c s H)].
+Qed.
+
+(* only accepted messages are ever delivered or dead-lettered *)
+Lemma handled_accepted c s m : reach c s -> In m (handled s) -> In m (enq s).
+Proof. intros H. apply subseq_In. apply (handled_subseq_enq c s H). Qed.
+
+(* nothing vanishes while the writer runs: an accepted message is delivered, dead-lettered, in the
+   writer's current batch, or still queued *)
+Lemma accepted_somewhere c s m : reach c s -> In m (enq s) ->
+  In m (delivered s) \/ In m (errored s) \/ In m (batch s) \/ In m (chan s).
+Proof.
+  intros H Hm. rewrite <- (conservation c s H) in Hm.
+  apply in_app_or in Hm. destruct Hm as [Hm|Hm].
+  - eapply Permutation_in in Hm; [|symmetry; apply split_perm]. apply in_app_or in Hm. tauto.
+  - apply in_app_or in Hm. tauto.
+Qed.
+
+(* ------------------------------------------------------------------ 3. accounted (repaired shutdown) *)
+Definition closing_w (w : wstate) : bool :=
+  match w with WDrain true | WFlush true | WExited => true | _ => false end.
+Definition quiet (th : thread) : bool := match tpc th with Idle | Locked => true | _ => false end.
+
+Lemma forallb_set_nth {A} (f : A -> bool) l t x :
+  forallb f l = true -> f x = true -> forallb f (set_nth l t x) = true.
+Proof.
+  revert t. induction l; intros [|t]; simpl; intros H Hx; auto.
+  - apply andb_true_iff in H. destruct H as [_ H]. rewrite Hx, H. reflexivity.
+  - apply andb_true_iff in H. destruct H as [Ha H]. rewrite Ha. simpl. apply IHl; auto.
+Qed.
+
+Lemma forallb_get {A} (f : A -> bool) l t x : forallb f l = true -> nth_error l t = Some x -> f x = true.
+Proof. intros H Hg. rewrite forallb_forall in H. apply H. eapply nth_error_In; eauto. Qed.
+
+Lemma idle_quiet ts : forallb is_idle ts = true -> forallb quiet ts = true.
+Proof.
+  rewrite !forallb_forall. intros H x Hx. specialize (H x Hx). unfold is_idle, quiet in *.
+  destruct (tpc x); auto; discriminate.
+Qed.
+
+Section Repaired.
+  Variable c : cfg.
+  Hypothesis Hbar : barrier c = true.
+  Hypothesis Hall : drain_all c = true.
+  Hypothesis Hmb : 1 <= maxBatch c.
+
+  Definition acc_inv (s : state) : Prop :=
+    (wr s = WBarrier \/ closing_w (wr s) = true -> done s = true) /\
+    (closing_w (wr s) = true -> forallb quiet (threads s) = true) /\
+    (wr s = WFlush true -> batch s = [] -> chan s = []) /\
+    (wr s = WExited -> chan s = []).
+
+  Lemma acc_init : acc_inv init.
+  Proof. repeat split; simpl; intros; try discriminate; destruct H; discriminate. Qed.
+
+  (* a caller step: writer control, batch and [done] unchanged *)
+  Lemma acc_caller s ch' ts' e' :
+    acc_inv s ->
+    (closing_w (wr s) = true -> forallb quiet ts' = true /\ ch' = chan s) ->
+    acc_inv (mkState ch' (done s) (wr s) (batch s) ts' e' (flushed s)).
+  Proof.
+    intros (Hd & Hq & Hf & He) Hc. unfold acc_inv; cbn [chan done wr batch threads enq flushed].
+    repeat split; auto.
+    - intros Hw. apply Hc. exact Hw.
+    - intros Hw Hb. destruct Hc as [_ ->]; [rewrite Hw; reflexivity|]. auto.
+    - intros Hw. destruct Hc as [_ ->]; [rewrite Hw; reflexivity|]. auto.
+  Qed.
+
+  Lemma acc_step s l s' : acc_inv s -> step c s l = Some s' -> acc_inv s'.
+  Proof.
+    intros Hinv H. pose proof Hinv as (Hd & Hq & Hf & He).
+    assert (Hqt : forall t th, get (threads s) t = Some th -> closing_w (wr s) = true -> quiet th = true).
+    { intros t th Hg Hcw. eapply forallb_get; [apply Hq; exact Hcw | exact Hg]. }
+    destruct l; simpl in H.
+    - (* LSpawn *) inversion H; subst; clear H. apply acc_caller; [exact Hinv|]. intros Hcw. split; [|reflexivity].
+      rewrite forallb_app, (Hq Hcw). reflexivity.
+    - (* LSubLock *) destruct (get (threads s) t) as [th|] eqn:Hg; [|discriminate].
+      destruct (tpc th) eqn:Hp; try discriminate. inversion H; subst; clear H.
+      apply acc_caller; [exact Hinv|]. intros Hcw. split; [|reflexivity].
+      apply forallb_set_nth; [auto | reflexivity].
+    - (* LSubCheck *) destruct (get (threads s) t) as [th|] eqn:Hg; [|discriminate].
+      destruct (tpc th) eqn:Hp; try discriminate.
+      destruct (eqb closed (done s)) eqn:Hcl; [|discriminate]. apply eqb_prop in Hcl.
+      destruct closed; inversion H; subst; clear H.
+      + apply acc_caller; [exact Hinv|]. intros Hcw. split; [|reflexivity].
+        apply forallb_set_nth; [auto | reflexivity].
+      + apply acc_caller; [exact Hinv|]. intros Hcw. rewrite Hd in Hcl by auto. discriminate.
+    - (* LSubFast *) destruct (get (threads s) t) as [th|] eqn:Hg; [|discriminate].
+      destruct (tpc th) eqn:Hp; try discriminate.
+      destruct (eqb ok (length (chan s) <? capacity c)); [|discriminate].
+      inversion H; subst; clear H.
+      destruct ok; apply acc_caller; try exact Hinv; intros Hcw;
+        specialize (Hqt _ _ Hg Hcw); unfold quiet in Hqt; rewrite Hp in Hqt; discriminate.
+    - (* LSubSlowSend *) destruct (get (threads s) t) as [th|] eqn:Hg; [|discriminate].
+      destruct (tpc th) eqn:Hp; try discriminate.
+      destruct (length (chan s) <? capacity c); [|discriminate]. inversion H; subst; clear H.
+      apply acc_caller; [exact Hinv|]. intros Hcw.
+      specialize (Hqt _ _ Hg Hcw); unfold quiet in Hqt; rewrite Hp in Hqt; discriminate.
+    - (* LSubSlowCtx *) destruct (get (threads s) t) as [th|] eqn:Hg; [|discriminate].
+      destruct (tpc th) eqn:Hp; try discriminate. inversion H; subst; clear H.
+      apply acc_caller; [exact Hinv|]. intros Hcw. split; [|reflexivity].
+      apply forallb_set_nth; [auto | reflexivity].
+    - (* LSubSlowDone *) destruct (get (threads s) t) as [th|] eqn:Hg; [|discriminate].
+      destruct (tpc th) eqn:Hp; try discriminate. destruct (done s); [|discriminate].
+      inversion H; subst; clear H.
+      apply acc_caller; [exact Hinv|]. intros Hcw. split; [|reflexivity].
+      apply forallb_set_nth; [auto | reflexivity].
+    - (* LClose *) inversion H; subst; clear H. unfold acc_inv; cbn [chan done wr batch threads enq flushed].
+      repeat split; auto.
+    - (* LWRecv *) destruct (wr s) eqn:Hw; try discriminate. destruct (chan s) eqn:Hch; [discriminate|].
+      inversion H; subst; clear H. unfold acc_inv, with_wr; cbn [chan done wr batch threads enq flushed].
+      repeat split; simpl; intros; try discriminate. destruct H; discriminate.
+    - (* LWDone *) destruct (wr s) eqn:Hw; try discriminate. destruct (done s) eqn:Hdn; [|discriminate].
+      inversion H; subst; clear H. unfold acc_inv, with_wr; cbn [chan done wr batch threads enq flushed].
+      repeat split; simpl; intros; try discriminate; auto.
+    - (* LWBarrier *) destruct (wr s) eqn:Hw; try discriminate.
+      rewrite Hbar in H. simpl in H. destruct (forallb is_idle (threads s)) eqn:Hidle; [|discriminate].
+      inversion H; subst; clear H. unfold acc_inv, with_wr; cbn [chan done wr batch threads enq flushed].
+      repeat split; simpl; intros; try discriminate; auto. apply idle_quiet. exact Hidle.
+    - (* LWDrainOne *) destruct (wr s) eqn:Hw; try discriminate. destruct (chan s) eqn:Hch; [discriminate|].
+      destruct (length (batch s) <? maxBatch c); [|discriminate].
+      inversion H; subst; clear H. unfold acc_inv, with_wr; cbn [chan done wr batch threads enq flushed].
+      repeat split; simpl; intros; try discriminate; auto.
+      all: try (destruct H as [H|H]; [discriminate|]; apply Hd; right; exact H).
+    - (* LWDrainStop *) destruct (wr s) eqn:Hw; try discriminate.
+      destruct (negb (length (batch s) <? maxBatch c) || match chan s with [] => true | _ :: _ => false end) eqn:Hg;
+        [|discriminate].
+      inversion H; subst; clear H. unfold acc_inv, with_wr; cbn [chan done wr batch threads enq flushed].
+      repeat split; simpl; intros; try discriminate; auto.
+      all: try (destruct H as [H|H]; [discriminate|]; apply Hd; right; exact H).
+      all: try (rewrite H0 in Hg; simpl in Hg;
+                destruct (Nat.ltb_spec 0 (maxBatch c)); [|lia]; simpl in Hg; destruct (chan s); [reflexivity|discriminate]).
+    - (* LWFlush *) destruct (wr s) eqn:Hw; try discriminate.
+      destruct (msgs_eqb b (batch s)); [|discriminate].
+      destruct (batch s) eqn:Hb.
+      + inversion H; subst; clear H. unfold acc_inv, with_wr; cbn [chan done wr batch threads enq flushed].
+        destruct closing; repeat split; simpl; intros; try discriminate; auto.
+        all: try (destruct H; discriminate).
+      + inversion H; subst; clear H. unfold acc_inv; cbn [chan done wr batch threads enq flushed].
+        rewrite Hall. destruct closing; repeat split; simpl; intros; try discriminate; auto.
+        all: try (destruct H; discriminate).
+  Qed.
+
+  Lemma acc_reach s : reach c s -> acc_inv s.
+  Proof. apply (reach_invariant c acc_inv acc_init acc_step). Qed.
+
+  (* once the writer has exited, every accepted message has been delivered or dead-lettered *)
+  Lemma accounted s : reach c s -> wr s = WExited ->
+    forall m, In m (enq s) -> In m (delivered s) \/ In m (errored s).
+  Proof.
+    intros H Hw m Hm. destruct (acc_reach s H) as (_ & _ & _ & He).
+    destruct (cons_reach c s H) as [_ Hb].
+    destruct (accepted_somewhere c s m H Hm) as [|[|[Hx|Hx]]]; auto.
+    - rewrite Hb in Hx by auto. destruct Hx.
+    - rewrite He in Hx by auto. destruct Hx.
+  Qed.
+
+End Repaired.
+
+(* ------------------------------------------------------------------ 4. the shutdown code before the repair *)
+(* (a) one drainReady on shutdown: with maxBatch = 1 (capacity 4) the caller queues three messages behind a
+       batch that is in flight, close() is called, the writer flushes ONE more batch and exits. *)
+Definition witness_one_drain : list label :=
+  [ LSpawn;
+    LSubLock 0; LSubCheck 0 false; LSubFast 0 true;        (* (0,0) accepted *)
+    LWRecv; LWDrainStop;                                     (* writer holds batch [(0,0)], blocked in flush *)
+    LSubLock 0; LSubCheck 0 false; LSubFast 0 true;        (* (0,1) *)
+    LSubLock 0; LSubCheck 0 false; LSubFast 0 true;        (* (0,2) *)
+    LSubLock 0; LSubCheck 0 false; LSubFast 0 true;        (* (0,3) *)
+    LClose;
+    LWFlush true [(0,0)];
+    LWDone; LWBarrier; LWDrainOne; LWDrainStop; LWFlush true [(0,1)] ].
+
+(* (b) a submit that passed the shutdown pre-check enqueues after the writer has exited; this one survives
+       draining until empty and needs the lock. *)
+Definition witness_late_submit : list label :=
+  [ LSpawn;
+    LSubLock 0; LSubCheck 0 false;                          (* pre-check passed *)
+    LClose; LWDone; LWBarrier; LWDrainStop; LWFlush true []; (* close(): writer drains nothing and exits *)
+    LSubFast 0 true ].                                       (* ... and now the send succeeds *)
+
+Definition lost (s : state) (m : msg) : Prop :=
+  wr s = WExited /\ In m (enq s) /\ ~ In m (delivered s) /\ ~ In m (errored s).
+
+Lemma legacy_refuted_one_drain :
+  exists s m, run (legacy 1) init witness_one_drain = Some s /\ lost s m.
+Proof.
+  eexists; exists (0, 2). split; [vm_compute; reflexivity|].
+  unfold lost; vm_compute. repeat split; auto; intros H; repeat (destruct H as [H|H]; [discriminate|]); exact H.
+Qed.
+
+Lemma late_submit_refuted :
+  exists s m, run (drainall_only 1) init witness_late_submit = Some s /\ lost s m.
+Proof.
+  eexists; exists (0, 0). split; [vm_compute; reflexivity|].
+  unfold lost; vm_compute. repeat split; auto; intros H; repeat (destruct H as [H|H]; [discriminate|]); exact H.
+Qed.
+
+(* the same label sequences are NOT executions of the repaired coalescer: the lock stops (b) ... *)
+Lemma late_submit_blocked : run (repaired 1) init witness_late_submit = None.
+Proof. vm_compute. reflexivity. Qed.
+
+(* ... and after (a)'s prefix the repaired writer keeps draining: the run of the same callers ends with
+   everything flushed. *)
+Definition witness_one_drain_repaired : list label :=
+  witness_one_drain ++ [ LWDrainOne; LWDrainStop; LWFlush true [(0,2)];
+                         LWDrainOne; LWDrainStop; LWFlush false [(0,3)];
+                         LWDrainStop; LWFlush true [] ].
+
+Example repaired_run_nontrivial :
+  exists s, run (repaired 1) init witness_one_drain_repaired = Some s /\ wr s = WExited /\
+            delivered s = [(0,0); (0,1); (0,2)] /\ errored s = [(0,3)] /\ chan s = [].
+Proof. eexists. split; [vm_compute; reflexivity|]. vm_compute. repeat split. Qed.
